@@ -5,8 +5,9 @@
    server: the library's socket() is answered with one end of a socketpair(2), the other end is
    driven by OpenSSL's own SSL_accept from inside the select() hook (single-threaded, non-blocking,
    deterministic).  Certificates are built per case with the OpenSSL C API from the description in
-   the `cfg` op (keys are generated once per process).  A CA file / CA directory is written into a
-   mkdtemp directory next to the harness binary and removed at exit.
+   the `cfg` op (keys are generated once per process).  The CA file / CA directory live in a mkdtemp
+   directory next to the harness binary (fallback TMPDIR) only while a `start` op runs; the
+   directory is removed at exit.
 
    cfg dom=H path=s|l|d flags=N cb=MODE ca=MODE srv=MODE leaf=LEAF [inter=INTER]   -> = cfg ok
         dom    XMPP domain (jid = user@dom)
@@ -178,7 +179,7 @@ static void write_pem(const char *path, X509 *c)
     }
 }
 
-static void zoo_cleanup(void)
+static void zoo_files_remove(void)
 {
     char p[700];
     if (!z_dir[0])
@@ -190,15 +191,70 @@ static void zoo_cleanup(void)
         unlink(p);
     }
     rmdir(z_capath);
+}
+
+static void zoo_cleanup(void)
+{
+    if (!z_dir[0])
+        return;
+    zoo_files_remove();
     rmdir(z_dir);
     z_dir[0] = 0;
+}
+
+/* a private directory: next to the binary (the build directory), else TMPDIR */
+static int zoo_dir_make(void)
+{
+    char exe[400];
+    ssize_t k = readlink("/proc/self/exe", exe, sizeof(exe) - 1);
+    z_dir[0] = 0;
+    if (k > 0) {
+        char *s;
+        exe[k] = 0;
+        if (strstr(exe, " (deleted)"))
+            *strstr(exe, " (deleted)") = 0;
+        s = strrchr(exe, '/');
+        if (s) {
+            *s = 0;
+            snprintf(z_dir, sizeof(z_dir), "%s/tlszoo.XXXXXX", exe);
+            if (!mkdtemp(z_dir))
+                z_dir[0] = 0;
+        }
+    }
+    if (!z_dir[0]) {
+        const char *t = getenv("TMPDIR");
+        snprintf(z_dir, sizeof(z_dir), "%s/tlszoo.XXXXXX", t && *t ? t : "/tmp");
+        if (!mkdtemp(z_dir)) {
+            z_dir[0] = 0;
+            return -1;
+        }
+    }
+    snprintf(z_cafile, sizeof(z_cafile), "%s/root.pem", z_dir);
+    snprintf(z_otherfile, sizeof(z_otherfile), "%s/other.pem", z_dir);
+    snprintf(z_capath, sizeof(z_capath), "%s/certs", z_dir);
+    snprintf(z_missing, sizeof(z_missing), "%s/missing.pem", z_dir);
+    snprintf(z_nofile, sizeof(z_nofile), "%s/no-default-store", z_dir);
+    return 0;
+}
+
+/* the CA files exist only while a connection attempt runs (the build directory may be pruned by a
+   concurrent build: the directory is made again when it has gone) */
+static int zoo_files_write(void)
+{
+    char p[700];
+    if ((!z_dir[0] || access(z_dir, W_OK) != 0) && zoo_dir_make() < 0)
+        return -1;
+    write_pem(z_cafile, z_root);
+    write_pem(z_otherfile, z_other);
+    mkdir(z_capath, 0700);
+    snprintf(p, sizeof(p), "%s/%08lx.0", z_capath, X509_subject_name_hash(z_root));
+    write_pem(p, z_root);
+    return access(z_cafile, R_OK) == 0 && access(p, R_OK) == 0 ? 0 : -1;
 }
 
 static int zoo_init(void)
 {
     int i;
-    char exe[400], p[700];
-    ssize_t k;
     X509_NAME *n;
     if (z_root)
         return 0;
@@ -216,39 +272,9 @@ static int zoo_init(void)
     n = mk_name("verif unknown root", NULL, 0);
     z_unk = mk_cert(n, -30, 3650, z_key[K_UNK], NULL, NULL, 1, NULL);
     X509_NAME_free(n);
-    /* directory next to the binary (fallback: TMPDIR) */
-    k = readlink("/proc/self/exe", exe, sizeof(exe) - 1);
-    z_dir[0] = 0;
-    if (k > 0) {
-        char *s;
-        exe[k] = 0;
-        s = strrchr(exe, '/');
-        if (s) {
-            *s = 0;
-            snprintf(z_dir, sizeof(z_dir), "%s/tlszoo.XXXXXX", exe);
-            if (!mkdtemp(z_dir))
-                z_dir[0] = 0;
-        }
-    }
-    if (!z_dir[0]) {
-        const char *t = getenv("TMPDIR");
-        snprintf(z_dir, sizeof(z_dir), "%s/tlszoo.XXXXXX", t && *t ? t : "/tmp");
-        if (!mkdtemp(z_dir)) {
-            z_dir[0] = 0;
-            return -1;
-        }
-    }
+    if (zoo_dir_make() < 0)
+        return -1;
     atexit(zoo_cleanup);
-    snprintf(z_cafile, sizeof(z_cafile), "%s/root.pem", z_dir);
-    snprintf(z_otherfile, sizeof(z_otherfile), "%s/other.pem", z_dir);
-    snprintf(z_capath, sizeof(z_capath), "%s/certs", z_dir);
-    snprintf(z_missing, sizeof(z_missing), "%s/missing.pem", z_dir);
-    snprintf(z_nofile, sizeof(z_nofile), "%s/no-default-store", z_dir);
-    write_pem(z_cafile, z_root);
-    write_pem(z_otherfile, z_other);
-    mkdir(z_capath, 0700);
-    snprintf(p, sizeof(p), "%s/%08lx.0", z_capath, X509_subject_name_hash(z_root));
-    write_pem(p, z_root);
     return 0;
 }
 
@@ -1198,7 +1224,19 @@ static int do_cfg(char **tok, int n)
     return 0;
 }
 
+static void do_start_inner(void);
+
 static void do_start(void)
+{
+    if (zoo_files_write() < 0) {
+        fprintf(t_out, "ORACLE-FAIL setup ca-files\n= start setup-failed\n");
+        return;
+    }
+    do_start_inner();
+    zoo_files_remove();
+}
+
+static void do_start_inner(void)
 {
     char jid[1200];
     int rc = 0, have_rc = 0, i, after = -1, reused = 0;
